@@ -203,5 +203,5 @@ Proof.
   assert (all_ascii vals = all_ascii vals') as Ha by (rewrite <- (all_ascii_upper vals), <- (all_ascii_upper vals'), Hu; reflexivity).
   destruct (str_is (upper name) "BEGIN") eqn:Eb.
   - rewrite Ha, Hu. reflexivity.
-  - destruct Hbe as [H|H]; [discriminate|]. rewrite H, Hu. reflexivity.
+  - destruct Hbe as [H|H]; [discriminate|]. rewrite H. reflexivity.
 Qed.
